@@ -3,8 +3,10 @@ import Restful.Driver.SExp
 import Restful.Driver.RoutingExtra
 import Restful.Driver.Serve
 import Restful.Driver.Response
+import Restful.Driver.Mime
+import Restful.Driver.Cors
 namespace Restful.Driver
 
-def statelessHandlers : List (SExp → Option String) := [handleSame, handleClass, handleServe, handleResponse]
+def statelessHandlers : List (SExp → Option String) := [handleSame, handleClass, handleServe, handleResponse, handleMime, handleCors]
 
 end Restful.Driver
